@@ -657,6 +657,28 @@ def _under_text_guard(fnode, st, name):
     return False
 
 
+def _finite_names(f, e):
+    """e is (a local bound once to) `T.get(k, 'lit')` / `T[k]` guarded... where T is a class- or module-level dict display whose values are all string
+    literals: the attribute name is one of finitely many literals of the source"""
+    if isinstance(e, ast.Name):
+        binds = [st.value for st in ast.walk(f.node) if isinstance(st, ast.Assign) and len(st.targets) == 1 and isinstance(st.targets[0], ast.Name) and st.targets[0].id == e.id]
+        if len(binds) != 1:
+            return False
+        e = binds[0]
+    if not (isinstance(e, ast.Call) and isinstance(e.func, ast.Attribute) and e.func.attr == 'get' and len(e.args) == 2 and isinstance(e.args[1], ast.Constant)
+            and isinstance(e.args[1].value, str)):
+        return False
+    tname = e.func.value.attr if isinstance(e.func.value, ast.Attribute) else (e.func.value.id if isinstance(e.func.value, ast.Name) else None)
+    if tname is None:
+        return False
+    scopes = [f.module.tree.body] + ([f.owner.node.body] if f.owner is not None else [])
+    for body in scopes:
+        for st in body:
+            if isinstance(st, ast.Assign) and len(st.targets) == 1 and isinstance(st.targets[0], ast.Name) and st.targets[0].id == tname and isinstance(st.value, ast.Dict):
+                return all(isinstance(v, ast.Constant) and isinstance(v.value, str) for v in st.value.values)
+    return False
+
+
 def check_dynamic(ix, rep, rule='R-EXC'):
     """objects obtained by name at parse time (getattr on an imported module, instantiation of what it returns): AttributeError / TypeError
     must be turned into RTAMTException"""
@@ -671,6 +693,8 @@ def check_dynamic(ix, rep, rule='R-EXC'):
             if not isinstance(c, ast.Call):
                 continue
             if isinstance(c.func, ast.Name) and c.func.id == 'getattr' and len(c.args) == 2 and not isinstance(c.args[1], ast.Constant):
+                if _finite_names(f, c.args[1]):
+                    continue        # the name comes out of a table of literals written in the source, not out of the specification text
                 n += 1
                 rep.analysed(f)
                 slot = 'getattr(%s)' % ast.unparse(c.args[1])[:30]
@@ -1158,7 +1182,42 @@ def check_builder_shape(ix, rep, rule='R-GRAM'):
             rep.fail(rule, g.module.rel, g.qual, 'transparent', 'redundant parentheses are not transparent: %s does not return the enclosed expression\'s node unchanged' % meth, g.node.lineno)
     a = ix.resolve_method(stl, 'visitAssertion')
     src = ast.unparse(a.node).replace(' ', '').replace('"', "'")
-    if "ifnotctx.Identifier():id='out'" in src.replace('\n', ''):
+    binds = {}
+    for n_ in ast.walk(a.node):
+        if isinstance(n_, ast.Assign) and len(n_.targets) == 1 and isinstance(n_.targets[0], ast.Name):
+            binds.setdefault(n_.targets[0].id, []).append(n_.value)
+    ctxp = a.node.args.args[1].arg
+
+    def _ident(e, depth=0):
+        if isinstance(e, ast.Name) and len(binds.get(e.id, ())) == 1 and depth < 3:
+            return _ident(binds[e.id][0], depth + 1)
+        return ast.unparse(e).replace(' ', '') == '%s.Identifier()' % ctxp
+
+    def _missing(t, depth=0):
+        if isinstance(t, ast.Name) and len(binds.get(t.id, ())) == 1 and depth < 3:
+            return _missing(binds[t.id][0], depth + 1)
+        if isinstance(t, ast.UnaryOp) and isinstance(t.op, ast.Not):
+            return _present(t.operand)
+        if isinstance(t, ast.Compare) and len(t.ops) == 1 and isinstance(t.ops[0], (ast.Is, ast.Eq)) and isinstance(t.comparators[0], ast.Constant) and t.comparators[0].value is None:
+            return _ident(t.left)
+        return False
+
+    def _present(t, depth=0):
+        if isinstance(t, ast.Name) and len(binds.get(t.id, ())) == 1 and depth < 3 and not _ident(t):
+            return _present(binds[t.id][0], depth + 1)
+        if isinstance(t, ast.UnaryOp) and isinstance(t.op, ast.Not):
+            return _missing(t.operand)
+        if isinstance(t, ast.Compare) and len(t.ops) == 1 and isinstance(t.ops[0], (ast.IsNot, ast.NotEq)) and isinstance(t.comparators[0], ast.Constant) and t.comparators[0].value is None:
+            return _ident(t.left)
+        return _ident(t)
+
+    def _text(e):
+        return isinstance(e, ast.Call) and isinstance(e.func, ast.Attribute) and e.func.attr == 'getText' and _ident(e.func.value)
+
+    def _out(e):
+        return isinstance(e, ast.Constant) and e.value == 'out'
+    by_expr = any(isinstance(x, ast.IfExp) and ((_missing(x.test) and _out(x.body) and _text(x.orelse)) or (_present(x.test) and _text(x.body) and _out(x.orelse))) for x in ast.walk(a.node))
+    if "ifnotctx.Identifier():id='out'" in src.replace('\n', '') or by_expr:
         rep.ok(rule, a.module.rel, a.qual, 'default-head', "an omitted assertion head is `out`", a.node.lineno)
     else:
         rep.fail(rule, a.module.rel, a.qual, 'default-head', "an omitted assertion head is not defaulted to `out`", a.node.lineno)
